@@ -157,6 +157,11 @@ class World:
                 plain = False
             if not plain:
                 self.sub.add(name)      # lives on a subset / an offset range of sites: not a general operand
+            elif not all(np.array_equal(np.asarray(t.data), np.round(np.asarray(t.data))) for t in obj.tensors):
+                # factors of an SVD / QR (from_dense, compress=True, canonicalize): the value is judged here, but the
+                # tensors are not exact integers, so the object is not reused as an operand (a later result would
+                # inherit a deviation that the tolerance of that record does not know about)
+                self.sub.add(name)
 
     def fail_rec(self, rec, ex, name=None, expect=None):
         rec["exc"] = type(ex).__name__
